@@ -31,12 +31,7 @@ func loadRoles(c *Check) loadRolesT {
 	if parent == nil || cl == nil {
 		return r
 	}
-	f := func(n string) string {
-		if n == "" {
-			return ""
-		}
-		return "*free:" + n
-	}
+	f := func(n string) string { return freeCanon(c.P, cl, n) }
 	r.snap = f(freeInitSuffix(parent, cl, ".Snapshot"))
 	r.native = f(freeInitSuffix(parent, cl, ".SchemaTracksChanges"))
 	r.t0 = f(freeInitSuffix(parent, cl, "call:time.Now"))
